@@ -11,6 +11,30 @@ claimed = {
  "C04": ("relisting disabled (period 10000h), watch faults {server close mid/after burst/idle, connect errors, status and bookmark frames} at drawn positions of 1..60 writes, starvation of controller/watcher/session/pump; oracle: cache == server and subscriber mirror == cache within 1.5s (retry delay 1s) after the last fault, resume versions only from sent events, never regressing",
          "runs in which a watch buffer overflowed are outside the premise (bursts <= EventBufsiz/4) and are counted, not judged"),
 }
+claimed.update({
+ "C05": ("Subscribe/Clone trees up to depth 3 with up to 8 leaves, late subscribers, <= 20 events in flight against a buffer of 100, logger/map-order/scheduling perturbed; oracles: each leaf's sequence is a suffix of the first witness's (same order, no duplicate, no omission), late subscribers miss nothing written after their creation returned, Cache().Get right after an event is never older than the event, strict replay mirrors",
+         "healthy API server; event identity = (type, key, resourceVersion) with unique versions per write"),
+ "C06": ("nested SubscribeWithFilter/SubscribeForFilter/CloneWithFilter/CloneForFilter trees (depth <= 3) with plain subscribers below, label-moving histories, 0..n Refilter calls per node racing with readiness, parent events and relists (per node serialised, since 'most recent filter' is only defined for ordered calls); at every quiescent point node cache == filter(parent cache) and mirror == cache",
+         "filters drawn from a 10-member family incl. separately constructed equal filters and a non-comparable FN filter; pure filter semantics trusted (C17/C18); after a logged buffer overflow filtered equality is not demanded"),
+ "C07": ("scripted: ready filtered subscription (or subscriber below a filtered clone), quiescence, Refilter(f2), quiescence; all 100 ordered pairs of the filter family enumerated round-robin, third filter sampled (incl. A->B->A), optional parent change between refilters; events between the barriers must be exactly one Delete per cached object f2 rejects plus one Create per newly accepted parent object",
+         "as C06"),
+ "C08": ("first list held by the fake server and released (or failed) as an explicit operation; operation orders over {release, Refilter(equal), Refilter(new), write, subscribe, settle} up to length 6 enumerated by run index; per-step invariants: no event queued on Events() while Ready() is open, Ready(node) implies Ready(parent), deferred nodes ready only after a Refilter was submitted, failed first list never ready; content read at the instant Ready is observed equals the filter over the (static) parent",
+         "the content-at-readiness oracle applies to runs where the server is static and the node has no filtered ancestor (otherwise the parent itself moves)"),
+ "C10": ("trees with stalled (never reading) and slow readers, filtered clones, monitors with blocking handlers; EventBufsiz 2..100; streams up to 5x the buffer delivered in bursts that healthy stages can absorb; healthy leaves keep strict mirrors (complete sequence), caches stay exact, what a stalled leaf finally drains is an in-order subsequence of a healthy sibling's sequence and at least min(published, buffer) long",
+         "starvation strategies are excluded here: a starved publisher overflows its own feed, which is not consumer isolation"),
+ "C11": ("mixed trees (all six Subscribe*/Clone* kinds, monitors) up to depth 4 under traffic; one node (or the root via Close / context cancel) closed at a drawn position, synchronously or from a racing goroutine; Done() closed for exactly that subtree, readers of closed nodes see the closed Events() channel, survivors receive a later probe write and pass all cache/mirror checks",
+         "joins are exercised by C09"),
+ "C12": ("shutdown-point sweep: Close / 3 concurrent Closes / context cancel injected at a scheduler step drawn over the run (one run in four enumerates early steps one by one), with watch connect hangs/errors, hanging lists and API calls racing; Close() and Done() within 1 ms of simulated time, zero live library goroutines afterwards (registry by creation site), API calls return ErrNotRunning, racing Subscribe/Clone yields a dead object",
+         "premise honoured by the fake client: List/Watch return once their context is cancelled"),
+ "C13": ("(period, latency/period in {0, .5, .95, 1.05, 2, 5}, starved lister/ticker/controller) grid on the simulated clock, both timer-channel semantics (Go <= 1.22 and >= 1.23); never two lists in flight, next list no earlier than 0.9 period after the previous returned, progress bound in stall-free runs, a further list within one cycle once perturbation stops, prompt clean Close at a drawn point of the cycle",
+         "time bounds are judged with the stall move switched off"),
+ "C14": ("list failure kind {error, non-list, list of non-objects, no Items, nil} x position k=1..5 enumerated by run index with subscriber trees attached: Done() closes, Error() non-nil and naming the cause, Ready() stays open for k=1, whole subtree down; watch failures of every kind and dead watches never stop the controller; deliberate Close() leaves Error() == nil",
+         ""),
+ "C15": ("cache actor with 1-2 writers (sync/update/refilter, unique versions) and 1-6 readers (List/Get, some scribbling on the returned slice); cache.go rebuilt with a preemption point before every statement; recorded invoke/return history (global event counter) checked with porcupine against the reference cache (10 s budget, Unknown never reported)",
+         "data races proper (hardware reordering) are outside a schedule-level simulator; the vector-clock tracker sketched in the design was not built"),
+ "C16": ("monitors on controllers, clones and filtered clones with handlers that sleep on the simulated clock or yield; Close of monitor/publisher/root incl. before readiness; OnInitialize first and at most once, no callback before the publisher is ready, never two callbacks at once, none after Done(), init list + callbacks replay to the publisher cache",
+         "replay tolerates the documented overlap between the initial List() and already queued events; typed monitors are covered by C20"),
+})
 pending = {}
 na = {
  "C17": "pure function of its inputs (Equals/Accept over filter terms): no schedule, clock, fault or interleaving for a simulator to control; generating terms would be property-based testing, not simulation",
